@@ -152,10 +152,15 @@ def step (st : St) (toks0 : List String) : St × String :=
     match ofHex k with
     | some k => doOp st (.remove k)
     | none => (st, "bad-op")
-  | ["rmprefix", p] =>
-    match ofHex p with
-    | some p => doOp st (.removeWithPrefix p)
-    | none => (st, "bad-op")
+  | "rmprefix" :: p :: ord =>
+    -- `rmprefix <prefix> [<key>*]`: the keys are the order `keysWithPrefix` returned in the implementation (hash-map iteration
+    -- order, an INPUT of the model); the answer carries the order the model used as a third field
+    match ofHex p, parseKeys ord with
+    | some p, some ord =>
+      let used := Kv.prefixOrder st.w.mem st.w.now p ord
+      let (st', line) := doOp st (.removeWithPrefix p ord)
+      (st', s!"{line} | order:{csv (used.map toHex)}")
+    | _, _ => (st, "bad-op")
   | ["clear"] => doOp st .clear
   | ["expireat", k, t] =>
     match ofHex k, t.toInt? with
@@ -193,6 +198,39 @@ def step (st : St) (toks0 : List String) : St × String :=
   | ["stats"] => (st, "stats")
   | _ => (st, "bad-op")
 
-def main : IO Unit := runLines ({} : St) step
+/-- `racegate <key> <writer op> [args]` (deterministic schedule of the implementation: a writer of the key is released while
+`get(key)` stands at its exclusive acquisition of `_cacheMutex` on the cache-miss path).  With the lock scopes of `Gen.Kv`
+(`Props/C12.lean`, `M6_get_miss_race`) the writer cannot start before the `get` has returned: the model runs `get key`, then the
+writer, as two sequential steps, and answers `<get result>;<writer result> | <file operations>`.
+
+`wracegate <key> <v1> <writer op> [args]`: the same with `set key v1` as the gated call (two writers; it stands at the cache update
+inside its `updateCache`).  Writers update `_cache` while they hold `_mutex` exclusively (`Gen.Kv.writersTouchCacheUnderStoreLock`,
+`M6_any_threads`), so again the only outcome is the two calls in sequence.  The file operations of the two steps are one trace
+(consecutive appends to the log coalesce, as in the harness, which collects the events once after both calls). -/
+def gated (st : St) (first : List String) (k wop : String) (args : List String) : St × String :=
+  let wtoks : Option (List String) :=
+    if wop = "clear" && args.isEmpty then some ["clear"]
+    else if wop = "remove" || wop = "persist" || wop = "set" || wop = "setttl" || wop = "expireat" then some (wop :: k :: args)
+    else none
+  match wtoks with
+  | none => (st, "bad-op")
+  | some wtoks =>
+    let (st1, l1) := step st first
+    let (st2, l2) := step st1 wtoks
+    match l1.splitOn " | ", l2.splitOn " | " with
+    | [r1, t1], [r2, t2] =>
+      let t :=
+        if t1 = showTr st1.w.tr && t2 = showTr st2.w.tr then showTr (st1.w.tr ++ st2.w.tr)
+        else if t1 = "-" then t2 else if t2 = "-" then t1 else t1 ++ ";" ++ t2
+      (st2, s!"{r1};{r2} | {t}")
+    | _, _ => (st, "bad-op")
+
+def stepTop (st : St) (toks : List String) : St × String :=
+  match toks with
+  | "racegate" :: k :: wop :: args => gated st ["get", k] k wop args
+  | "wracegate" :: k :: v1 :: wop :: args => gated st ["set", k, v1] k wop args
+  | _ => step st toks
+
+def main : IO Unit := runLines ({} : St) stepTop
 
 end Iora.Driver.Kv
